@@ -595,11 +595,68 @@ func init() {
 	register("C05", "Local and global timestamps are mutually consistent", func(c *Ctx) {
 		c.Group("C05/suffix", "suffix width never shrinks; a suffix is create-if-absent, existing ones are returned, new ones are max+1, only the leader assigns", func() { ruleSuffix(c); ruleFollowerSuffixRefresh(c) })
 		c.Group("C05/local-leader-sync", "a new local allocator leader synchronises (Initialize, WriteTSO(MaxTs), suffix width) before it is enabled", func() { ruleLocalLeaderSync(c); ruleCampaignGate(c) })
-		c.Group("C05/estimate-validated", "the global allocator validates its estimate before writing it; the local side bumps an equal maximum and never reports a failed write as synced", func() { ruleGlobalSettingPhase(c); ruleAllKnownDCsSynced(c) })
+		c.Group("C05/estimate-validated", "the global allocator validates its estimate before writing it; the local side bumps an equal maximum and never reports a failed write as synced", func() { ruleGlobalSettingPhase(c); ruleAllKnownDCsSynced(c); ruleHandlerKeepsMaximum(c) })
 		c.Group("C05/overflow-carry", "when the estimate's logical part overflows it is reset only together with an advance of its physical part", func() { ruleOverflowCarry(c); ruleOverflowVetted(c) })
 		c.Group("C05/suffix-bits-reported", "the suffix width reported with a timestamp is the width used to differentiate it, computed from the largest suffix in use", func() { ruleSuffixBitsReported(c) })
 		c.Group("C05/monotone-write", "(shared with C01) the maximum written back into a local allocator is adopted whenever it is later in the millisecond arithmetic timestamps are composed with: equal milliseconds are decided by the logical part", func() { ruleMonotoneWrite(c) })
 		c.Group("C05/global-generate", "(shared with C01) a global timestamp is returned only after ok(SyncMaxTS), pre-check and a post-write leadership check", func() { ruleGlobalGenerate(c) })
 		c.Group("C05/getTS", "(shared with C01) overflow and lease guards of the local path", func() { ruleGetTS(c) })
 	})
+}
+
+// ruleHandlerKeepsMaximum: the check phase of the SyncMaxTS handler answers
+// with the largest current TSO of the local allocators this PD leads. The
+// running maximum is replaced by an allocator's current TSO only when that one
+// compares greater (current first, running maximum second) — or nothing was
+// collected yet. With the operands swapped the handler reports the minimum,
+// the estimate is accepted, and WriteTSO skips the allocator that is ahead.
+func ruleHandlerKeepsMaximum(c *Ctx) {
+	P := c.P
+	rule := c.Prop + "/sync-max-ts-handler"
+	h := P.Method("server", "Server", "SyncMaxTS")
+	cur := F(P.Method("server/tso", "LocalTSOAllocator", "GetCurrentTSO"))
+	cmpTS := F(P.Func("pkg/tsoutil", "CompareTimestamp"))
+	n := 0
+	for _, b := range h.Blocks {
+		for _, ins := range b.Instrs {
+			st, ok := ins.(*ssa.Store)
+			if !ok {
+				continue
+			}
+			cell, isCell := st.Addr.(*ssa.Alloc)
+			if !isCell || !derivesFrom(st.Val, func(v ssa.Value) bool { cl, _ := callOf(v); return cl != nil && cur.Match(cl.Common()) }, 3) {
+				continue
+			}
+			n++
+			val := st.Val
+			isRunning := func(v ssa.Value) bool { return cellOf(v) == cell }
+			greater := &guardEv{name: "CompareTimestamp(current, running maximum) > 0", match: func(cond ssa.Value, pos bool) bool {
+				r, ok := relOf(cond, pos)
+				if !ok {
+					return false
+				}
+				cl, _ := callOf(r.X)
+				k, isC := constInt(r.Y)
+				if cl == nil || !isC || !cmpTS.Match(cl.Common()) || len(cl.Call.Args) != 2 {
+					return false
+				}
+				fwd := sameVal(cl.Call.Args[0], val) && isRunning(cl.Call.Args[1])
+				rev := isRunning(cl.Call.Args[0]) && sameVal(cl.Call.Args[1], val)
+				switch {
+				case fwd:
+					return (r.Op == token.GTR && k >= 0) || (r.Op == token.GEQ && k >= 1)
+				case rev:
+					return (r.Op == token.LSS && k <= 0) || (r.Op == token.LEQ && k <= -1)
+				}
+				return false
+			}}
+			none := guardRel("nothing collected yet", "==", isRunning, isNilConst)
+			target := st
+			c.need(rule, h, fmt.Sprintf("running maximum replaced #%d", n), func(x ssa.Instruction) bool { return x == ssa.Instruction(target) }, []Ev{greater, none}, anyOf,
+				"the running maximum is replaced only by a current TSO that compares greater than it (or when nothing was collected yet)")
+		}
+	}
+	if n == 0 {
+		c.Undec(rule, "running maximum in "+fnName(h), "a local that collects GetCurrentTSO() results", "", "")
+	}
 }
